@@ -388,7 +388,7 @@ def gen_op(rng, docs, weights, **kw):
                 'ordered': rng.random() < 0.5}
     if k == 'update':
         return {'op': 'update', 'filter': gen_filter(rng, docs, **kw), 'update': gen_update(rng, docs, **kw),
-                'multi': rng.random() < 0.4, 'upsert': rng.random() < 0.25}
+                'multi': rng.random() < 0.4, 'upsert': rng.random() < UPSERT_RATE[0]}
     if k == 'replace':
         r = gen.document(rng, 1, with_id=rng.random() < 0.25, **kw)
         return {'op': 'replace', 'filter': gen_filter(rng, docs, **kw), 'repl': r,
@@ -451,8 +451,30 @@ def gen_op(rng, docs, weights, **kw):
         if rng.random() < 0.2:
             op['partial'] = {rng.choice(gen.KEYS): {'$exists': True}}
         return op
+    if k == 'create_ttl':
+        key = [[rng.choice(['d', 'd', 'd', 'a']), 1]]
+        if rng.random() < 0.1:
+            key.append([rng.choice(gen.KEYS), 1])          # compound: ignored by expiry
+        return {'op': 'create_index', 'key': key, 'unique': False, 'sparse': False,
+                'ttl': rng.choice([0, 1, 10, 10, 60, '5', 'abc', 1.5, 10])}
+    if k == 'insert_dated':
+        r = rng.random()
+        base = T0 + datetime.timedelta(seconds=rng.choice([-100, -11, -10, -9, -1, 0, 1, 50]),
+                                       microseconds=rng.choice([0, 0, 1000, -1000]))
+        if r < 0.6:
+            dv = base
+        elif r < 0.75:
+            dv = [base, T0 + datetime.timedelta(seconds=rng.choice([-50, 5])), rng.choice([1, 'x', None])]
+        elif r < 0.8:
+            dv = []
+        else:
+            dv = rng.choice([None, 5, 'x', {'k': 1}])
+        d = {'_id': rng.choice(IDS + [5, 6, 7, 8]), 'd': dv, 'a': rng.choice([1, 2, 3])}
+        if r > 0.95:
+            del d['d']
+        return {'op': 'insert_one', 'doc': d}
     if k == 'drop_index':
-        return {'op': 'drop_index', 'name': '%s_1' % rng.choice(gen.KEYS)}
+        return {'op': 'drop_index', 'name': '%s_1' % rng.choice(gen.KEYS + ['d'])}
     if k in ('drop_indexes', 'index_info', 'drop'):
         return {'op': k}
     if k == 'clock':
@@ -461,6 +483,7 @@ def gen_op(rng, docs, weights, **kw):
     raise ValueError(k)
 
 
+UPSERT_RATE = [0.25]
 DEFAULT_WEIGHTS = {'insert_one': 6, 'insert_many': 2, 'update': 6, 'replace': 2, 'delete': 2,
                    'find': 3, 'fam': 3, 'bulk': 2, 'count': 1, 'distinct': 1, 'create_index': 2, 'drop_index': 1,
                    'drop_indexes': 1, 'index_info': 1, 'drop': 1}
